@@ -1116,6 +1116,11 @@ def key_eq(a, b):
 def map_locate(eng, m, key):
     """Index of the entry whose key equals `key` on this path (forks), or None."""
     key = deref_all(key)
+    if type(key) is Int and type(key.v) is int and len(m.e) > 4:
+        d, sym = m.index()
+        if not sym:
+            hit = d.get(key.v)
+            return hit[0] if hit else None
     conds = []
     for (k, p, v) in m.e:
         conds.append(key_eq(k, key))
@@ -1130,6 +1135,21 @@ def map_locate(eng, m, key):
     return i
 
 
+def entry_present(eng, r, m, i):
+    """Fork on the presence of entry i of the map at r; on the 'present' side the state is refined
+    (presence becomes True: the path condition implies it).  Returns python bool."""
+    k, p, v = m.e[i]
+    if p is True:
+        return True
+    if p is False:
+        return False
+    if eng.ctx.branch(p):
+        eng.store(r, MapV(m.e[:i] + ((k, True, v),) + m.e[i + 1:], m.kind))
+        return True
+    eng.store(r, MapV(m.e[:i] + m.e[i + 1:], m.kind))
+    return None   # absent: entry dropped, indices after i shifted
+
+
 def _entry_ref(eng, mref, m, i):
     r = _innermost_ref(eng, mref)
     return Ref(r.base, r.path + (('m', i),))
@@ -1137,6 +1157,13 @@ def _entry_ref(eng, mref, m, i):
 
 def map_contains(eng, m, key):
     key = deref_all(key)
+    if type(key) is Int and type(key.v) is int and len(m.e) > 4:
+        d, sym = m.index()
+        if not sym:
+            r = False
+            for i in d.get(key.v, ()):
+                r = bool_or(r, m.e[i][1])
+            return r
     r = False
     for (k, p, v) in m.e:
         r = bool_or(r, bool_and(p, key_eq(k, key)))
@@ -1190,7 +1217,7 @@ def _hm_get(eng, t, a, fr, dt):
     i = map_locate(eng, m, a[1])
     if i is None:
         return NONE
-    if not eng.ctx.branch(m.e[i][1]):
+    if not entry_present(eng, r, m, i):
         return NONE
     return some(Ref(r.base, r.path + (('m', i),)))
 
@@ -1235,6 +1262,51 @@ def _hm_clear(eng, t, a, fr, dt):
     return UNIT
 
 
+@reg('HashSet::retain', 'BTreeSet::retain')
+def _hs_retain(eng, t, a, fr, dt):
+    r = _innermost_ref(eng, a[0])
+    m = eng.load(r)
+    out = []
+    for (k, p, v) in m.e:
+        if p is False:
+            continue
+        keep = eng.call_closure(a[1], [Ref(Cell(k), (0,))], fr.tsubst if fr else None)
+        np = bool_and(p, keep)
+        if np is not False:
+            out.append((k, np, v))
+    eng.store(r, MapV(tuple(out), m.kind))
+    return UNIT
+
+
+@reg('HashMap::retain', 'BTreeMap::retain')
+def _hm_retain(eng, t, a, fr, dt):
+    r = _innermost_ref(eng, a[0])
+    m = eng.load(r)
+    idxs = present_indices(eng, m)
+    out = []
+    for i in idxs:
+        k, p, v = m.e[i]
+        cell = Cell(v)
+        keep = eng.call_closure(a[1], [Ref(Cell(k), (0,)), Ref(cell, (0,))], fr.tsubst if fr else None)
+        if eng.ctx.branch(keep):
+            out.append((k, True, cell.v))
+    eng.store(r, MapV(tuple(out), m.kind))
+    return UNIT
+
+
+@reg('Vec::retain')
+def _vec_retain(eng, t, a, fr, dt):
+    r = _innermost_ref(eng, a[0])
+    v = eng.load(r)
+    out = []
+    for it in v.items:
+        keep = eng.call_closure(a[1], [Ref(Cell(it), (0,))], fr.tsubst if fr else None)
+        if eng.ctx.branch(keep):
+            out.append(it)
+    eng.store(r, VecV(out))
+    return UNIT
+
+
 @reg('HashMap::len', 'HashSet::len')
 def _hm_len(eng, t, a, fr, dt):
     m = deref_all(a[0])
@@ -1260,16 +1332,12 @@ def _entry_or_insert(eng, ent, mk_default):
     r, key = ent.data
     m = eng.load(r)
     i = map_locate(eng, m, key)
-    if i is not None and eng.ctx.branch(m.e[i][1]):
+    if i is not None and entry_present(eng, r, m, i):
         return Ref(r.base, r.path + (('m', i),))
     val = mk_default()
     m = eng.load(r)
-    if i is None:
-        eng.store(r, MapV(m.e + ((key, True, val),), m.kind))
-        return Ref(r.base, r.path + (('m', len(m.e)),))
-    k, p, old = m.e[i]
-    eng.store(r, MapV(m.e[:i] + ((k, True, val),) + m.e[i + 1:], m.kind))
-    return Ref(r.base, r.path + (('m', i),))
+    eng.store(r, MapV(m.e + ((key, True, val),), m.kind))
+    return Ref(r.base, r.path + (('m', len(m.e)),))
 
 
 @reg('Entry::or_insert')
